@@ -330,6 +330,10 @@ func (w *World) callMods(c *Ctx, m *modSet, cc *ssa.CallCommon, ex *Exec, depth 
 		return
 	}
 	if isPureExternal(callee) || isLogFunc(callee) {
+		if isPureExternal(callee) && hasCallbackArg(callee, nil) {
+			// the library function runs the function value it is given
+			m.all = true
+		}
 		return
 	}
 	switch calleeOriginName(callee) {
